@@ -304,7 +304,11 @@ def start_dependence_end_states(spec, cfg, vw):
         res.append({"P": float(out[0]), "widthsTn": (np.asarray(out[1].widths) * Tn).tolist(),
                     "offsets": np.asarray(out[1].offsets).tolist(),
                     "action_drop_over_scale": worst / scale, "where": where,
-                    "stationary": bool(worst >= -1e-3 * scale)})
+                    # 1e-2: a converged end state sits within 1e-3 (C01's probe); an early-
+                    # stopped one lags by an iteration (unchanged tree: 1.3e-3 with
+                    # out-of-equilibrium on and 20 iterations); a parameter held by a bound
+                    # showed 0.16
+                    "stationary": bool(worst >= -1e-2 * scale)})
     return res
 
 
